@@ -190,6 +190,11 @@ class Iter:
         return ElemRef(self.seq, i)
 
 
+class OutOfRange(AnalysisBroken):
+    """the interpreted code indexes a modelled std container outside its size: undefined behaviour of
+    the code under analysis; rules that run concrete-shape scenarios report it as a violation"""
+
+
 class Poly:
     """polynomial with integer coefficients over opaque commutative symbols (free algebra):
     an exact abstract domain for code that only adds and multiplies opaque quantities"""
@@ -1080,6 +1085,18 @@ class Interp:
             # defaulted copy / move assignment of a library record: member-wise copy
             r = OBJ()
             return self.assign(fr, e, r, A(0))
+        if bn == "std::copy" and len(args_n) == 3:
+            b0, e0, d0 = V(0), V(1), V(2)
+            if isinstance(b0, Iter) and isinstance(e0, Iter) and isinstance(d0, Iter) and b0.seq is e0.seq \
+                    and b0.step == 1 and e0.step == 1 and d0.step == 1:
+                n_ = e0.pos - b0.pos
+                if d0.pos + n_ > len(d0.seq):
+                    raise OutOfRange("interp: std::copy writes %d elements past the end of the destination at %s"
+                                     % (d0.pos + n_ - len(d0.seq), fr.fn.loc(e)))
+                vals = [copy.deepcopy(b0.seq[b0.pos + k]) for k in range(n_)]
+                for k, v_ in enumerate(vals):
+                    d0.seq[d0.pos + k] = v_
+                return Iter(d0.seq, d0.pos + n_, 1)
         if bn in ("std::max", "std::min"):
             a, b = A(0), A(1)
             if len(args_n) == 3:
@@ -1225,7 +1242,7 @@ class Interp:
                 if not isinstance(i, int):
                     raise AnalysisBroken("interp: abstract index %r" % (i,))
                 if i < 0 or i >= len(c):
-                    raise AnalysisBroken("interp: index %d out of range (size %d) at %s" % (i, len(c), fr.fn.loc(e)))
+                    raise OutOfRange("interp: index %d out of range (size %d) at %s" % (i, len(c), fr.fn.loc(e)))
                 return ElemRef(c, i)
             if name in ("push_back", "emplace_back"):
                 if len(args_n) == 1:
